@@ -25,6 +25,7 @@ func init() {
 const pagPkg = "collection/pagination"
 
 func runC19(c *Ctx) {
+	c.paginatorContextsDescendFromTheCallers()
 	c.rule("E1", "a return reached only on the non-nil side of a test of a callee's error must not return a nil error (constructor failures are reported)", 10)
 	c.rule("E9", "in a function that can report an error, the error obtained from a callee goes somewhere: into a return, a call or a store — it is not merely looked at", 12)
 	c.rule("E12", "the stream paginator's GetNext looks for further items through the stream paginator's own HasNext (the one that follows future pages), not the embedded paginator's", 1)
